@@ -1,12 +1,14 @@
 #!/usr/bin/env python3
 """Run checks against seeded changes on scratch copies of /repo/src (never touches /repo).
-usage: tools/run_seeded.py [ids...] [--all-props]   -> table: id, property, exit code of ./check <prop>, first VIOLATION line"""
+usage: tools/run_seeded.py [ids...] [--all-props] [--benign]   -> table: id, property, exit code of ./check <prop>, first VIOLATION line
+--benign: take the behaviour-preserving changes of /verif/benign instead (expected: no VIOLATION from any check)"""
 import json, os, shutil, subprocess, sys, tempfile, concurrent.futures as cf
 
 VERIF = os.path.dirname(os.path.dirname(os.path.abspath(__file__)))
+SET = 'benign' if '--benign' in sys.argv else 'seeded'
 
 def run_one(sid, props):
-    d = os.path.join(VERIF, 'seeded', sid)
+    d = os.path.join(VERIF, SET, sid)
     tmp = tempfile.mkdtemp(prefix='seedrun-')
     try:
         shutil.copytree('/repo', tmp, ignore=shutil.ignore_patterns('target', '.git'), dirs_exist_ok=True)
@@ -25,12 +27,12 @@ def run_one(sid, props):
 
 def main():
     args = [a for a in sys.argv[1:] if not a.startswith('--')]
-    ids = args or sorted(os.listdir(os.path.join(VERIF, 'seeded')))
+    ids = args or sorted(os.listdir(os.path.join(VERIF, SET)))
     man = json.load(open(os.path.join(VERIF, 'MANIFEST.json')))
     claimed = [c['property_id'] for c in man['checks']]
     jobs = []
     for sid in ids:
-        meta = json.load(open(os.path.join(VERIF, 'seeded', sid, 'meta.json')))
+        meta = json.load(open(os.path.join(VERIF, SET, sid, 'meta.json')))
         props = claimed if '--all-props' in sys.argv else [meta['property']]
         jobs.append((sid, props))
     with cf.ThreadPoolExecutor(max_workers=4) as ex:
